@@ -23,6 +23,7 @@ CONSTANTS Prefix,      \* prefixes
                        \* across the route-server boundary): like the observer's own routes they are never sent to it
           Cls,         \* attribute classes (exported content)
           Reject,      \* classes the export policy rejects
+          ShardOf,     \* [Prefix -> 0..9]: the table-manager shard that holds the prefix
           RejectSrc,   \* sources whose routes the export policy rejects (an RPKI condition: their routes validate Invalid)
           SendMax,     \* 1 = plain session, >1 = add-path TX window
           MaxChan,     \* bound on undelivered notifications (state constraint)
@@ -87,9 +88,14 @@ Enabled(st, op) ==
 ---------------------------------------------------------------------------
 \* RIB side
 
-FreeId(st) == CHOOSE i \in 1..(Cardinality(Prefix) + 1) :
-                 /\ \A p \in Prefix : st.did[p] # i
-                 /\ \A j \in 1..(i - 1) : \E p \in Prefix : st.did[p] = j
+\* destination ids: every shard of the table manager has its own lowest-free allocator and marks its ids with the shard
+\* number, so ids are re-used among the prefixes of ONE shard only (ShardOf: which shard the dealer gives a prefix to)
+FreeId(st, p) ==
+  LET same == {q \in Prefix : ShardOf[q] = ShardOf[p]}
+      base == 10 * ShardOf[p]
+  IN base + CHOOSE i \in 1..(Cardinality(same) + 1) :
+                 /\ \A q \in same : st.did[q] # base + i
+                 /\ \A j \in 1..(i - 1) : \E q \in same : st.did[q] = base + j
 
 \* rib[p] is a SET of paths [src, cls, lid]; ranking: LLGR-stale sources last, then SrcRank
 RankKey(st, x) == (IF x.src \in st.llgr THEN 100 ELSE 0) + SrcRank[x.src]
@@ -125,7 +131,7 @@ DoAnnounce(st, op) ==
   LET had  == Holds(st, op.p, op.src)
       lid  == LidFor(st, op.p, op.src)
       x    == [src |-> op.src, cls |-> op.cls, lid |-> lid]
-      id   == IF st.did[op.p] = 0 THEN FreeId(st) ELSE st.did[op.p]
+      id   == IF st.did[op.p] = 0 THEN FreeId(st, op.p) ELSE st.did[op.p]
       st2  == [st EXCEPT !.rib[op.p] = {y \in @ : y.src # op.src} \cup {x}, !.did[op.p] = id,
                          !.hid[op.p] = {y \in @ : y.src # op.src},
                          !.nlid[op.p] = IF LidMode = "abstract" \/ had THEN @ ELSE lid + 1]
@@ -142,7 +148,7 @@ DoFilter(st, op) ==
   LET had  == Holds(st, op.p, op.src)
       wasIn == Has(st, op.p, op.src)
       lid  == LidFor(st, op.p, op.src)
-      id   == IF st.did[op.p] = 0 THEN FreeId(st) ELSE st.did[op.p]
+      id   == IF st.did[op.p] = 0 THEN FreeId(st, op.p) ELSE st.did[op.p]
       st2  == [st EXCEPT !.rib[op.p] = {y \in @ : y.src # op.src}, !.did[op.p] = id,
                          !.hid[op.p] = {y \in @ : y.src # op.src} \cup {[src |-> op.src, lid |-> lid, cls |-> op.cls]},
                          !.nlid[op.p] = IF LidMode = "abstract" \/ had THEN @ ELSE lid + 1]
